@@ -651,6 +651,11 @@ impl Device {
                         }
                     } else {
                         load = mb.out_queue.pop_front();
+                        if mb.scripted_endless && mb.out_queue.is_empty() {
+                            if let Some(last) = mb.scripted_last.clone() {
+                                mb.out_queue.push_back(last);
+                            }
+                        }
                     }
                 }
             }
@@ -712,6 +717,11 @@ impl Device {
         let mb = self.mailbox.as_mut().unwrap();
         if !mb.out_full && mb.out_delay_left == 0 {
             if let Some(msg) = mb.out_queue.pop_front() {
+                if mb.scripted_endless && mb.out_queue.is_empty() {
+                    if let Some(last) = mb.scripted_last.clone() {
+                        mb.out_queue.push_back(last);
+                    }
+                }
                 self.load_read_mailbox(start, mlen, msg);
             }
         }
